@@ -1,9 +1,9 @@
 package gen
 
 import (
-	"strconv"
 	"math/big"
 	"sort"
+	"strconv"
 	"strings"
 
 	"verif/harness/internal/script"
@@ -228,6 +228,23 @@ func (g *G) tx(v *view, check bool) script.Tx {
 		}
 	}
 	t.Fee = g.feeToken(v, msgs)
+	// an explicit fee payer (AuthInfo.Fee.Payer) other than the first signer: it pays, and it signs too (last)
+	if g.chance(g.w.payerPct) && len(t.Signers) >= 1 {
+		p := g.liveAcct(v, aware)
+		if len(v.locked) > 0 && g.chance(50) {
+			p = g.pickInt(v.locked) // a holder of locked eFUND
+		}
+		t.Payer = A(p)
+		key = p // the allowance that counts is the fee payer's
+		has := false
+		for _, s := range t.Signers {
+			has = has || s == t.Payer
+		}
+		if !has && g.chance(92) { // now and then the payer's signature is missing
+			t.Signers = append(t.Signers, t.Payer)
+		}
+		g.st.MsgsPerTx["explicit-fee-payer"]++
+	}
 	for _, fg := range v.feegrants {
 		if fg[1] == key && g.chance(g.w.granterPct) {
 			t.Granter = A(fg[0])
